@@ -225,7 +225,7 @@ func main() {
 		fmt.Println("not reproduced: property holds on this case")
 		return
 	}
-	n := hx.Pick3(args.Tier, 500, 10000, 30000)
+	n := hx.Pick3(args.Tier, 500, 5000, 30000)
 	var cases []string
 	for i := 0; i < n; i++ {
 		c := gen(rng, meta)
